@@ -95,6 +95,8 @@ func genDistOnce(r *kernel.Rng, cfg DistGenCfg) (disttypes.Params, bool) {
 	}
 	if cfg.SelfAsModule {
 		pool = append(pool, disttypes.Account{Id: disttypes.DistributorMainAccount, Type: disttypes.ModuleAccount})
+		// ... or by its address as a BASE_ACCOUNT
+		pool = append(pool, disttypes.Account{Id: authtypes.NewModuleAddress(disttypes.DistributorMainAccount).String(), Type: disttypes.BaseAccount})
 	}
 	for _, a := range cfg.BaseAddrs {
 		pool = append(pool, disttypes.Account{Id: a, Type: disttypes.BaseAccount})
